@@ -191,7 +191,7 @@ def run_c09(lo, hi):
 METHOD_NAMES = ['count', 'index', 'join', 'keys', 'format']
 
 
-def run_method_names():
+def run_method_names(which='c09'):
     """a function that is called like a method of its first argument (count, index, join, keys, format): `_keygen` takes
     `getattr(args[0], func.__name__)` for a sign that args[0] is `self`"""
     import klepto
@@ -250,6 +250,7 @@ def run_method_names():
                     viol('ignored_never_influence', 'a function named like a method of its first argument',
                          'def %s with ignore=first: calls differing only in the ignored argument get the keys %s' % (form % name, sorted(keys)), wit11)
     out['samples'].append({'function_names': METHOD_NAMES, 'first_arguments': [repr(x) for x in firsts]})
+    out['violations'] = [v for v in out['violations'] if v['witness'].get('check') == which]      # each property reports its own clauses
     return out
 
 
@@ -310,7 +311,7 @@ def run_c19(lo, hi):
 
 def replay(w):
     if 'methodname' in w:
-        r = run_method_names()
+        r = run_method_names(w.get('check', 'c09'))
         vs = [v for v in r['violations'] if v['witness'].get('methodname') == w['methodname'] and v['witness'].get('form') == w['form']]
         return bool(vs), (vs[0]['message'][:500] if vs else 'calls of %s behave' % w['form'])
     lo = names().index(w['reserved']) if w['reserved'] in names() else None
